@@ -34,7 +34,14 @@ def gen(rng):
     L = G.make_layout(rng, trash_states=[rng.choice(['absent', 'sticky', 'nonsticky']) for _ in range(4)],
                       alt_states=[rng.choice(['absent', 'dir']) for _ in range(4)])
     steps = L['steps']
-    TG.populate(rng, L, steps, n=rng.choice([0, 1, 2, 4, 7]), allow_invalid=rng.random() < 0.3, bulk=0.003)
+    made = TG.populate(rng, L, steps, n=rng.choice([0, 1, 2, 4, 7]), allow_invalid=rng.random() < 0.3, bulk=0.003)
+    if made and rng.random() < 0.05:
+        # info/<name>_alias.trashinfo is a symlink to the .trashinfo of ANOTHER entry of the same directory (with a payload of its
+        # own): whether it can still be read when its turn comes depends on whether the other entry was purged before it
+        tdir_, nm_, _loc, _d = rng.choice(made)
+        if len(nm_.encode('utf-8', 'surrogateescape')) < 200 and '\n' not in nm_:
+            steps.append(['l', tdir_ + '/info/' + nm_ + '_alias.trashinfo', nm_ + '.trashinfo'])
+            steps.append(['f', tdir_ + '/files/' + nm_ + '_alias', 'payload of the alias', 0o644])
     locs = [t for t in TG.trash_locations(L) if t[2]]
     for i in range(rng.choice([0, 0, 1, 2])):
         TG.add_malformed(rng, steps, rng.choice(locs)[0], rng.choice(['nodate', 'baddate', 'nopayload', 'orphan', 'nonsuffix', 'empty', 'nopath']), str(i))
@@ -157,7 +164,7 @@ def check(sim, case, st):
                 break
             for p in pset - top_removed:
                 if p in snap0:
-                    res.append(('C14/dry-run-printed-not-removed', '--dry-run printed %r, which exists, but the real run does not remove it (argv %r, real exit %s, stderr %s)'
+                    res.append(('C14/dry-run-printed-not-removed' + ('/info-is-a-link-to-another-info' if '_alias' in p else ''), '--dry-run printed %r, which exists, but the real run does not remove it (argv %r, real exit %s, stderr %s)'
                                 % (p, argv, r2.exit, r2.errs[-300:])))
                     break
                 else:
